@@ -206,6 +206,9 @@ func runC04(r *Run, verifDir string) {
 	c.l7SignPad()
 	c.l8EmptyByteString()
 	c.x1Ranges("C04.L9")
+	bigNarrowRule(r, "C04.L11")
+	errorsNotCarried(r, "C04.L13")
+	r.Import("C04.L12", "numbers rendered in hexadecimal by the name/mask writers are unsigned (no minus sign can appear in a 0x form)", 10, "C17", "C17.N9", nil)
 }
 
 func runC18(r *Run, verifDir string) {
@@ -225,6 +228,11 @@ func runC18(r *Run, verifDir string) {
 	c.l1Hex("C18.X3")
 	c.l2Base("C18.X3")
 	c.l4Units("C18.X3")
+	bigNarrowRule(r, "C18.X9")
+	errorsNotCarried(r, "C18.X13")
+	r.Import("C18.X10", "numbers rendered in hexadecimal by the name/mask writers are unsigned (no minus sign can appear in a 0x form)", 10, "C17", "C17.N9", nil)
+	r.Import("C18.X11", "the generic containers never keep an element whose decode failed (a half-built Value cannot be re-encoded)", 100, "C02", "C02.R8", func(k string) bool { return strings.HasPrefix(k, "ttlv.") })
+	r.Import("C18.X12", "the JSON writer escapes every caller-provided string", 3, "C04", "C04.L3", nil)
 }
 
 // ---------------------------------------------------------------- L1
